@@ -23,7 +23,8 @@ def sh(cmd, cwd, ok_codes=(0,)):
 def main():
     pid, dest = sys.argv[1], sys.argv[2]
     needs = sys.argv[3] if len(sys.argv) > 3 else ""
-    wt, out = f"/tmp/seedwt/{pid}", f"/tmp/seedout/{pid}"
+    rnd = os.environ.get("SEED_ROUND", "")
+    wt, out = f"/tmp/seedwt{rnd}/{pid}", f"/tmp/seedout{rnd}/{pid}"
     mod = f"{wt}/luahelper-lsp"
     ran = []
     # clean stray files the agent may have left (demo copies), keep tracked modifications
@@ -32,15 +33,15 @@ def main():
     for u in untracked:
         p = os.path.join(wt, u)
         shutil.rmtree(p) if os.path.isdir(p) else os.remove(p)
+    # the agent's patch.diff is the authority (worktrees of one repository share a stash stack, and
+    # parallel agents using `git stash` can leave a foreign change behind): reset, then apply it
+    sh("git checkout -- .", wt)
+    rc, o = sh(f"git apply {out}/patch.diff", wt)
+    if rc != 0:
+        print("patch does not apply:", o); sys.exit(1)
     rc, diff = sh("git diff", wt)
-    if not diff.strip():
-        # worktree clean: apply the patch
-        rc, o = sh(f"git apply {out}/patch.diff", wt)
-        if rc != 0:
-            print("patch does not apply:", o); sys.exit(1)
-        rc, diff = sh("git diff", wt)
     patch = diff
-    ran.append("git diff (worktree) -> patch.diff")
+    ran.append("scratch worktree reset, agent's patch.diff applied")
     rc, o = sh("go build ./... && go test -vet=off -count=1 -timeout 25m ./... 2>&1 | tail -40", mod)
     ran.append("with change: go build ./... && go test -vet=off -count=1 ./...  -> " + ("ok" if rc == 0 and "FAIL" not in o else "FAILED"))
     if rc != 0 or "FAIL" in o:
@@ -69,7 +70,7 @@ def main():
         print("--- demo output with change:\n", o1); sys.exit(1)
     if not passed_without:
         print("--- demo output without change:\n", o2); sys.exit(1)
-    sd = f"/verif/seeded/{pid}"
+    sd = f"/verif/seeded/{pid}" + (f"-r{rnd}" if rnd else "")
     os.makedirs(sd, exist_ok=True)
     open(f"{sd}/patch.diff", "w").write(patch)
     shutil.copy(f"{out}/demo_test.go", f"{sd}/demo_test.go")
@@ -84,7 +85,7 @@ def main():
         "needs_to_manifest": needs,
         "demonstration": {"file": "demo_test.go", "copy_to": "luahelper-lsp/" + dest, "tests": tests},
         "confirmed": ran,
-        "apply": f"git -C /repo apply /verif/seeded/{pid}/patch.diff ; undo: git -C /repo checkout -- .",
+        "apply": f"git -C /repo apply {sd}/patch.diff ; undo: git -C /repo checkout -- .",
     }
     json.dump(meta, open(f"{sd}/meta.json", "w"), indent=1)
     print("kept:", sd)
